@@ -123,6 +123,92 @@ def run(F, ck, tier):
     E.check('R10.2', dict(id='ctl.equality.circuit', fn='starky::cross_table_lookup::verify_cross_table_lookups_circuit', crate='starky', kind='sink', callee=['connect'],
                           src=['p:ctl_zs_first', 'F:CrossTableLookup.looking_tables', 'F:CrossTableLookup.looked_table', 'p:ctl_extra_looking_sums', 'c:add_many'],
                           ctx={'uncond': True, 'loop': ['F:StarkConfig.num_challenges']}, whole=True, why='circuit twin connects the same pair'))
+    # extra looking sums are keyed by the POSITION of the cross-table lookup, not by a table index (both are usize)
+    for q in ('verify_cross_table_lookups', 'verify_cross_table_lookups_circuit'):
+        fn = F.one('starky::cross_table_lookup::' + q, crate='starky')
+        if fn is None:
+            ck.ob('R10.2', 'anchor:' + q, False, 'ANCHOR-MISSING ' + q)
+            continue
+        fl = flow.Flow(F, fn)
+        gets = [e for e in fl.events if e.kind == 'call' and e.name == 'get' and e.recv is not None and flow.has_param(flow.flat(e.recv), 'ctl_extra_looking_sums')]
+        bad = [e for e in gets if any(a.startswith('F:CrossTableLookup.') or a.startswith('F:TableWithColumns.') for e_ in [e] for v in e_.args for a in flow.flat(v))]
+        ck.ob('R10.2', 'ctl.extra_key:' + q, bool(gets) and not bad, 'extra looking sums are fetched by the position of the lookup' if gets and not bad else
+              ('%s fetches the extra looking sums with a key taken from the lookup\'s tables (a table index) instead of the lookup\'s position: declared extra values are applied to the wrong lookup or ignored' % q) if gets else
+              '%s no longer consults ctl_extra_looking_sums' % q, (bad or gets)[0].loc() if (bad or gets) else '%s:%d' % (fn.file, fn.line))
+    # ---------------------------------------------------------------- R10.6
+    adjacent_grouping(F, ck)
+    # ---------------------------------------------------------------- R10.7
+    ck.rule('R10.7', 'the lookup / CTL evaluators and helper-column builders iterate whole sequences: no element-dropping adaptor (chunks_exact, take, skip, step_by, filter, ...) - a dropped trailing batch leaves its helper column unconstrained')
+    from .c04 import DROPPING
+    from .facts import walk as _walk
+    nfn = 0
+    for q in ('eval_helper_columns', 'eval_helper_columns_circuit', 'eval_packed_lookups_generic', 'eval_ext_lookups_circuit', 'eval_cross_table_lookup_checks',
+              'eval_cross_table_lookup_checks_circuit', 'verify_cross_table_lookups', 'verify_cross_table_lookups_circuit', 'get_helper_cols', 'partial_sums', 'lookup_helper_columns'):
+        for fn in F.find(q, crate='starky'):
+            if fn.body is None:
+                continue
+            nfn += 1
+            bad = sorted({x['n'] for x in _walk(fn.body) if x.get('k') == 'MCall' and x.get('n') in DROPPING - {'filter', 'pop', 'first', 'last'}})
+            ck.ob('R10.7', 'whole:' + fn.qual, not bad, 'iterates whole sequences' if not bad else
+                  'ELEMENTS DROPPED: %s uses %s: the trailing (partial) batch of looking columns is skipped, so its helper column / filter is summed by the prover but never constrained' % (fn.qual, ','.join(bad)), '%s:%d' % (fn.file, fn.line))
+    ck.floor('R10.7', 'lookup / CTL evaluators and helper builders examined', nfn, 9)
     ck.decided += ['native/circuit evaluator skeleton agreement', 'logUp and CTL evaluators have the shape of their argument and are fed by the right columns', 'CTL equality check and twin']
     ck.undecided += ['correctness of the log-derivative argument (algebra)', 'multiset equality (behavioural)', 'challenge provenance in multi-table callers outside this repository']
     return 'Decides structural necessary conditions of C10: evaluator skeletons (sibling agreement and argument shape), data feeding, CTL equality guard and twin.'
+
+
+ADJACENT_OPS = {'dedup', 'dedup_by', 'dedup_by_key', 'group_by', 'chunk_by'}
+# adjacency-based operations whose input is in key order by construction (reviewed)
+SORTED_BY_CONSTRUCTION = {
+    ('CircuitBuilder::try_build_with_options', 'dedup'): 'generator indices are pushed while iterating generators in increasing index order, so equal indices are adjacent',
+}
+
+
+def adjacent_grouping(F, ck):
+    from .facts import walk
+    """R10.6: `dedup` / `group_by` treat only ADJACENT equal keys as one class.  Everywhere else in the workspace the sequence is sorted
+    first; a site that is not sorted (and not reviewed as ordered by construction) splits one class into several when equal keys
+    are not adjacent - for the CTL helper columns: a looking table that occurs twice, separated by another table."""
+    ck.rule('R10.6', 'adjacency-based grouping (dedup / group_by) is applied to a sequence that was sorted by the same function before, or is ordered by construction (reviewed)')
+    n = 0
+    for fn in sorted(F.fns.values(), key=lambda f: f.qual):
+        if fn.crate not in ('plonky2', 'starky') or fn.body is None:
+            continue
+        nodes = list(walk(fn.body))
+        idx = {id(x): i for i, x in enumerate(nodes)}
+        for x in nodes:
+            if x.get('k') != 'MCall' or x.get('n') not in ADJACENT_OPS:
+                continue
+            n += 1
+            # receiver: a local (sorted earlier by a `sort*` call on the same local), or a chain containing `sorted*`
+            chain = []
+            r = x['r']
+            root = None
+            while isinstance(r, dict):
+                if r.get('k') == 'MCall':
+                    chain.append(r['n'])
+                    r = r['r']
+                elif r.get('k') in ('Ref', 'Un', 'Field', 'Cast'):
+                    r = r['e']
+                elif r.get('k') == 'Local':
+                    root = r
+                    break
+                else:
+                    break
+            ok = any(c.startswith('sorted') for c in chain)
+            if not ok and root is not None:
+                for y in nodes:
+                    if y.get('k') == 'MCall' and y.get('n', '').startswith('sort') and idx[id(y)] < idx[id(x)]:
+                        ry = y['r']
+                        while isinstance(ry, dict) and ry.get('k') in ('Ref', 'Un', 'Field', 'Cast'):
+                            ry = ry['e']
+                        if isinstance(ry, dict) and ry.get('k') == 'Local' and ry['id'] == root['id']:
+                            ok = True
+            key = 'adjacent:%s:%s' % (fn.qual, x['n'])
+            if not ok and (fn.qual, x['n']) in SORTED_BY_CONSTRUCTION:
+                ck.ob('R10.6', key, True, 'reviewed: ' + SORTED_BY_CONSTRUCTION[(fn.qual, x['n'])], x.get('s'))
+                continue
+            ck.ob('R10.6', key, ok, 'input sorted before the adjacency-based %s' % x['n'] if ok else
+                  'UNSORTED ADJACENT GROUPING: %s applies %s() to a sequence that is not sorted: equal keys that are not adjacent form separate groups (for cross-table lookups: a looking table listed twice with another table in between '
+                  'gets two sets of helper columns while every other routine treats all entries of a table as one group - such a system cannot be proved)' % (fn.qual, x['n']), x.get('s'))
+    ck.floor('R10.6', 'adjacency-based grouping sites', n, 4)
